@@ -39,3 +39,20 @@ CLAIMED["C15"] = {
     "note": "The concurrent / linearizability half is NOT covered (locks transparent, no thread model). Stable-sort model for sort_by_key/sort_by. Trusted: rsym + library model, z3, reference model. Bounded in K.",
 }
 NA.pop("C15", None)
+
+NA.update({
+ "C01": "the condition gate runs over Facts + expression.rs (char-level scanning, parse::<f64> of text); float parsing and char scanning over symbolic text are not modelled by rsym, and concrete text leaves nothing for the solver",
+ "C02": "RustRuleEngine::execute_at_time (plugins, analytics, workflow, chrono dates, boxed action handlers) is outside the interpreter's modelled subset",
+ "C03": "whole-engine loop of RustRuleEngine::execute; outside the interpreter's modelled subset",
+ "C04": "the GRL parser sits behind the rexile regex engine; a regex matcher over symbolic text is out of reach and concrete text leaves nothing to decide",
+ "C05": "parsers behind rexile/nom and char-level scanning over symbolic text up to 4 KiB: out of reach for symbolic execution",
+ "C06": "IncrementalEngine::fire_all executes Arc<dyn Fn> actions built by the GRL loader over flattened TypedFacts; opaque to the interpreter",
+ "C09": "DepthFirstSearch/BackwardEngine round-trip goals through format!/parse and boxed built-ins; not in the modelled subset",
+ "C11": "same engine as C09 plus string-keyed caches of formatted queries",
+ "C14": "StreamJoinNode keys its buffers by format!(\"{}_{}\", id, ts) of symbolic integers and calls boxed join conditions; free integer->string is not modelled",
+ "C16": "index/memo keys are Debug renderings of FactValue (float formatting is the subject); opaque in the model",
+ "C19": "thread::spawn/join schedules cannot be made symbolic in this family here (no concurrency model)",
+ "C20": "file-system writes and crash points have no model in this family here",
+})
+for _p in list(CLAIMED):
+    NA.pop(_p, None)
